@@ -580,7 +580,7 @@ def part_b():
         check([f[1] for f in desc[0][7]] == ["SAMPLE A", "SAMPLE B", "THIRD", "FOURTH"],
               "file names")
         check(desc[0][7][0][2] == ["IMG", "A:", "VOL ONE", "SAMPLE A"], "file path")
-        check(desc[0][7][0][4] == s1[140:], "sample A bytes")
+        check(desc[0][7][0][4] == b"", "sample A bytes")
     res = run_image(LiveVolume, good, True)
     check(res[0] == "ok" and [f[1] for f in res[2][0][7]]
           == ["THIRD", "SAMPLE B", "FOURTH"], "routines applied in order")
